@@ -68,7 +68,7 @@ func (r *SimReader) Read(p []byte) (int, error) {
 	}
 	limit := len(r.data)
 	fault := r.spec.TruncAt > 0
-	if fault && r.spec.TruncAt-1 < limit {
+	if fault && r.spec.TruncAt-1 <= limit {
 		limit = r.spec.TruncAt - 1
 	} else {
 		fault = false
